@@ -14,8 +14,8 @@ LEVEL_TEXT = ("Mixed.  PROVED: the real CompositeFrontend with the real Composit
               "satisfiable is exact (also with extra constraints); eval / batch_eval / max / min / solution ask exactly one child, with the caller's "
               "expression and extra constraints, whose constraints allow exactly the values the whole constraint set allows, and return its answer "
               "unchanged; is_true / is_false ask a child whose constraints are implied; branch leaves no child owned by both sides and an add on the "
-              "branch leaves the parent intact; split hands out copies with the solver's models; simplify keeps the models.  The input class of the "
-              "recorded finding 'ensure-sat-skipped-with-extras' is excluded from the value clause and nothing else.  BOUNDED (never counted as proved): "
+              "branch leaves the parent intact; split hands out copies with the solver's models; simplify keeps the models.  (The value clause failed on the unchanged "
+              "tree for extra constraints on an already unsatisfiable set - repaired in /repo, no exclusion remains.)  BOUNDED (never counted as proved): "
               "histories on the real SolverComposite (adds, queries, branch, simplify, split, combine, merge) judged by a stateless reference; "
               "CompositeFrontend.merge/combine and unsat cores are covered there only.")
 EXPLANATION = ("proved: 61 obligations of CompositeFrontend+CompositedCacheMixin over stub children (13 methods, the query methods per partition shape); "
